@@ -304,12 +304,17 @@ impl World {
 
         let mut ids: HashMap<String, u64> = HashMap::new();
         let mut names: HashMap<u64, String> = HashMap::new();
-        // realistic address lengths: in every other deployment bob, david and the liquidator carry 44-character bech32-shaped
-        // addresses (the fixture names are 3–10 bytes; nothing that is keyed by an address may depend on its length)
+        // realistic address lengths and shapes: in every other deployment bob, david and the liquidator carry bech32-shaped addresses of
+        // 44–45 characters that agree in their first 34 characters (nothing keyed by an address may depend on a bounded prefix of it), and
+        // david's address is bob's plus one character (an address is compared as a whole: david is not bob, whatever bob is allowed to do).
+        // The fixture names are 3–10 bytes.
         let long = cfg.seed.wrapping_add(cfg.h) % 2 == 1;
+        const FILL: &str = "wasm1qpzry9x8gf2tvdw0s3jn54khce6mua7l2tvdw0s3jn54kh";
         for (id, n) in ACCOUNTS {
-            let name = if long && matches!(*id, 102 | 104 | 110) {
-                format!("wasm1{}{}", n, &"qpzry9x8gf2tvdw0s3jn54khce6mua7l2tvdw0s3jn54kh"[..39 - n.len()])
+            let name = if long && matches!(*id, 102 | 110) {
+                format!("{}{}", &FILL[..44 - n.len()], n)
+            } else if long && *id == 104 {
+                format!("{}bob9", &FILL[..41])
             } else {
                 n.to_string()
             };
@@ -961,6 +966,21 @@ impl World {
                     let r: Option<ifund::VammResponse> = self.q(&self.ifund, &ifund::QueryMsg::IsVamm { vamm: self.addr(id) });
                     if r.map(|x| x.is_vamm).unwrap_or(false) {
                         yes.push(id.to_string());
+                    }
+                    // strings that are NOT a deployed vAMM's address but share most of one: a proper prefix, a proper suffix (reported as
+                    // id 0) and the two extensions the key-alias probes use (ids +20 / +30) — membership is decided on the whole address
+                    let a = self.addr(id);
+                    let mut probes: Vec<(u64, String)> = vec![(0, a[..a.len() - 1].to_string()), (0, a[1..].to_string())];
+                    probes.push((id + super::cfg::ALIAS_AL, self.addr(id + super::cfg::ALIAS_AL)));
+                    probes.push((id + super::cfg::ALIAS_CA, self.addr(id + super::cfg::ALIAS_CA)));
+                    for (pid, ps) in probes {
+                        if (0..self.cfg.vamms.len()).any(|j| self.addr(super::cfg::VAMM0 + j as u64) == ps) {
+                            continue; // the probe string happens to be another deployed vAMM's address
+                        }
+                        let r: Option<ifund::VammResponse> = self.q(&self.ifund, &ifund::QueryMsg::IsVamm { vamm: ps });
+                        if r.map(|x| x.is_vamm).unwrap_or(false) && !yes.contains(&pid.to_string()) {
+                            yes.push(pid.to_string());
+                        }
                     }
                 }
                 if yes.is_empty() { "none".to_string() } else { yes.join(",") }
